@@ -153,7 +153,7 @@ func (g gateL2) Unlock(ctx context.Context, keys []*sop.LockKey) error {
 
 // ---- scheduler side ----
 
-const stepTimeout = 20 * time.Second
+const stepTimeout = 8 * time.Second
 
 // advance lets the actor run to its next gate (starting it if necessary) and returns where it stopped.
 func (a *actor) advance(c cmd, op func(ctx context.Context) (string, int, string)) (arrival, error) {
@@ -168,7 +168,14 @@ func (a *actor) advance(c cmd, op func(ctx context.Context) (string, int, string
 			a.atCh <- arrival{gate: "done", res: res, val: val, err: e}
 		}()
 	} else {
-		a.cmdCh <- c
+		if a.at == "done" || a.at == "torn" {
+			return arrival{}, fmt.Errorf("actor %s has already finished (%s)", a.name, a.at)
+		}
+		select {
+		case a.cmdCh <- c:
+		case <-time.After(stepTimeout):
+			return arrival{}, fmt.Errorf("actor %s does not take commands (was at %s)", a.name, a.at)
+		}
 	}
 	select {
 	case ar := <-a.atCh:
